@@ -269,3 +269,46 @@ func VH_C16_serialise_long_id() {
 		vrtReach("longest-id")
 	}
 }
+
+// VH_C16_merge_wide: vectors as wide as the documented cap (65535 entries) and
+// just below it, merged with a vector that knows a node the wide one does not:
+// the merge is still the join (contains every component of both, commutes, is
+// not Before either argument), whatever internal size estimates say.
+func VH_C16_merge_wide() {
+	n := []int{65533, 65534, 65535}[vrtChoose(3)]
+	a := NewVersionVector()
+	a.m = make(map[string]uint64, n)
+	id := func(i int) string {
+		b := []byte("w000000")
+		for p := len(b) - 1; p > 0 && i > 0; p-- {
+			b[p] = byte('0' + i%10)
+			i /= 10
+		}
+		return string(b)
+	}
+	for i := 0; i < n; i++ {
+		a.m[id(i)] = uint64(1 + i%3)
+	}
+	a.dirty = true
+	// the counters are a concrete choice here: this job is about sizes (a symbolic
+	// counter would make every one of the 65k loop iterations of Compare a solver decision)
+	ca := []uint64{1, 5}[vrtChoose(2)]
+	cb := uint64(3)
+	b := NewVersionVector()
+	b.m = map[string]uint64{"new-node": cb, id(0): ca}
+	b.dirty = true
+	ab, ba := a.Merge(b), b.Merge(a)
+	vrtAssert(ab.Get("new-node") == cb && ba.Get("new-node") == cb, "merge-is-upper-bound")
+	want0 := uint64(1)
+	if ca > want0 {
+		want0 = ca
+	}
+	vrtAssert(ab.Get(id(0)) == want0 && ba.Get(id(0)) == want0, "merge-is-upper-bound")
+	vrtAssert(ab.Get(id(n-1)) == uint64(1+(n-1)%3) && ba.Get(id(n-1)) == uint64(1+(n-1)%3), "merge-is-upper-bound")
+	vrtAssert(len(ab.m) == n+1 && len(ba.m) == n+1, "merge-commutative")
+	vrtAssert(ab.Compare(b) != VersionBefore && ab.Compare(b) != VersionConcurrent, "merge-is-upper-bound")
+	vrtAssert(ba.Compare(a) != VersionBefore && ba.Compare(a) != VersionConcurrent, "merge-is-upper-bound")
+	if n == 65535 {
+		vrtReach("at-the-cap")
+	}
+}
